@@ -70,14 +70,15 @@ Section Det.
   | DScan (n : nat) (act : K -> bool)
   | DSaveReload                           (* Serialize, write, read, Load: the same wallet *)
   | DLock | DUnlock                       (* Lock / Unlock: derivation state untouched *)
-  | DFailed.                              (* an operation that returned an error (finder error during a scan,
+  | DFailed                               (* an operation that returned an error (finder error during a scan,
                                              generate / scan on a locked wallet, invalid count): no effect *)
+  | DRead.                                (* read-only calls: Fingerprint, GetEntries, EntriesLen, Serialize, Clone ... *)
 
   Definition d_step (w : dwallet) (o : dop) : dwallet :=
     match o with
     | DGen n => d_generate n w
     | DScan n act => d_scan n act w
-    | DSaveReload | DLock | DUnlock | DFailed => w
+    | DSaveReload | DLock | DUnlock | DFailed | DRead => w
     end.
   Definition d_run (ops : list dop) (w : dwallet) : dwallet := fold_left d_step ops w.
   Fixpoint d_trace (ops : list dop) (w : dwallet) : list dwallet :=
@@ -92,7 +93,7 @@ Section Det.
     match o with
     | DGen n => m + n
     | DScan n act => m + keep_num (map act (skipn m (derive_all s (m + n))))
-    | DSaveReload | DLock | DUnlock | DFailed => m
+    | DSaveReload | DLock | DUnlock | DFailed | DRead => m
     end.
   (* the operations that can change the derivation state *)
   Definition d_effective (o : dop) : bool :=
@@ -110,7 +111,7 @@ End Det.
 
 Arguments d_seed {S K}. Arguments d_last {S K}. Arguments d_entries {S K}.
 Arguments DGen {K} n. Arguments DScan {K} n act. Arguments DSaveReload {K}.
-Arguments DLock {K}. Arguments DUnlock {K}. Arguments DFailed {K}. Arguments d_effective {K} o.
+Arguments DLock {K}. Arguments DUnlock {K}. Arguments DFailed {K}. Arguments DRead {K}. Arguments d_effective {K} o.
 
 (* ------------------------------------------------- index-derived chains *)
 Section Idx.
@@ -152,7 +153,8 @@ Section Idx.
   | ILock                                 (* bip44 Lock: addresses untouched, later ones derived publicly *)
   | IUnlock                               (* bip44 Unlock: secrets restored / synced, addresses untouched *)
   | IFailed                               (* an operation that returned an error: no effect *)
-  | INewAccount.                          (* bip44 NewAccount: two more (empty) chains, external and change *)
+  | INewAccount                           (* bip44 NewAccount: two more (empty) chains, external and change *)
+  | IRead.                                (* read-only calls: Fingerprint, GetEntries, EntriesLen, Serialize, Clone ... *)
 
   (* a failing op (chain out of range) leaves the wallet unchanged *)
   Definition i_step (w : iwallet) (o : iop) : iwallet :=
@@ -164,6 +166,7 @@ Section Idx.
     | IUnlock => w
     | IFailed => w
     | INewAccount => w ++ [[]; []]
+    | IRead => w
     end.
   Definition i_effective (o : iop) : bool :=
     match o with IGen _ _ | IScan _ _ | INewAccount => true | _ => false end.
@@ -184,7 +187,7 @@ Section Idx.
 End Idx.
 
 Arguments IGen {K} j n. Arguments IScan {K} n act. Arguments ISaveReload {K}.
-Arguments ILock {K}. Arguments IUnlock {K}. Arguments IFailed {K}. Arguments INewAccount {K}. Arguments i_effective {K} o.
+Arguments ILock {K}. Arguments IUnlock {K}. Arguments IFailed {K}. Arguments INewAccount {K}. Arguments IRead {K}. Arguments i_effective {K} o.
 
 (* ------------------------------------------------------------ coin type *)
 (* The wallet's coin type selects the text form of its addresses (Skycoin base58
